@@ -157,6 +157,25 @@ def generate(rng, tier):
                   'sys.set 1 2 3 4 5 0 %d %d 57343 49152' % (hl >> 8, hl & 255), 'sys.cyc %d' % rng.randrange(3, 30),
                   'sys.rr 0xFE00 0xFE9F']
         cases.append(('cpuoam%d' % i, lines))
+    # TIMA / TMA / TAC read-back around an overflow, with the timer stopped at each of the following cycles
+    ntm = 0
+    for k in (range(0, 14) if quick else range(0, 40)):
+        for j in (0, 1, 2, 5):
+            tma = rng.randrange(256)
+            lines = ['sys.cpurom', 'sys.w 0xFF06 %d' % tma, 'sys.w 0xFF07 5', 'sys.w 0xFF05 0xFF', 'sys.w 0xFF04 0', 'sys.hw %d' % k,
+                     'sys.w 0xFF07 %d' % rng.choice([0, 1, 3]), 'sys.hw %d' % j, 'sys.w 0xFF05 0x57', 'sys.r 0xFF05', 'sys.w 0xFF06 0x99',
+                     'sys.r 0xFF05', 'sys.r 0xFF06', 'sys.r 0xFF07', 'sys.hw 3', 'sys.w 0xFF05 0x31', 'sys.r 0xFF05']
+            cases.append(('tmr%d' % ntm, lines))
+            ntm += 1
+    # LCDC read-back while the LCD stays off / stays on
+    for i in range(8 if quick else 64):
+        lines = ['sys.cpurom', 'sys.w 0xFF40 %d' % rng.choice([0x00, 0x11, 0x7f])]
+        for _ in range(6):
+            lines += ['sys.w 0xFF40 %d' % rng.randrange(0x80), 'sys.r 0xFF40', 'sys.hw %d' % rng.randrange(0, 300)]
+        lines += ['sys.w 0xFF40 %d' % (0x80 | rng.randrange(0x80)), 'sys.r 0xFF40']
+        for _ in range(4):
+            lines += ['sys.hw %d' % rng.randrange(0, 300), 'sys.w 0xFF40 %d' % (0x80 | rng.randrange(0x80)), 'sys.r 0xFF40']
+        cases.append(('lcdc%d' % i, lines))
     ops = sum(len(c[1]) for c in cases)
     info = dict(exhaustive=True,
                 input_distribution=dict(sweep_cases=n_sweep, addresses_per_sweep=65536, values=len(VALUES),
